@@ -387,6 +387,35 @@ def timelines_close(sa, sb) -> bool:
     return True
 
 
+def switched_close(ka, kb) -> bool:
+    """C18's comparison of a switched sequence with the original: channels other
+    than DMMs keep their names; a DMM may have been re-matched to another DMM of
+    the new device (other name and id), so DMM channels are paired by content.
+    Declaration order is not compared (a template declares its channels in the
+    order the calls are replayed at build time)."""
+    from types import SimpleNamespace as NS
+
+    from .oracles import c18
+
+    if not (keys_close(ka.pk, kb.pk) and ka.fl == kb.fl and ka.rk == kb.rk):
+        return False
+    a, b = ka.snap.channels, kb.snap.channels
+    na = {n for n, c in a.items() if not c.is_dmm}
+    if na != {n for n, c in b.items() if not c.is_dmm}:
+        return False
+    one = lambda c: c18.tl(NS(channels={"x": c}))  # noqa: E731
+    for n in na:
+        if one(a[n]) != one(b[n]):
+            return False
+    left = [c for c in b.values() if c.is_dmm]
+    for c in (c for c in a.values() if c.is_dmm):
+        m = next((d for d in left if d.dmm_weights == c.dmm_weights and one(c) == one(d)), None)
+        if m is None:
+            return False
+        left.remove(m)
+    return not left
+
+
 class SeqView:
     """What two 'same' sequences must agree on. Compared by keys_close():
     instruction kinds, times and targets exactly; pulse samples to 1e-9 relative
@@ -615,6 +644,7 @@ def gen_template_world(seed: int, prop: str, run: int, profile: dict) -> dict:
         max_steps=profile.get("prog_len", 14),
         ops_per_channel=(2, 6),
         chan_ops={"add": 10, "delay": 3, "target": 3, "phase_shift": 2, "align": 1.5, "enable_eom": 2},
+        dmm_twice_p=profile.get("dmm_twice_p", 0.0),
     )
     ctx = engine.Ctx(world, prof, [])
     st = engine.Stepper(ctx)
@@ -625,6 +655,11 @@ def gen_template_world(seed: int, prop: str, run: int, profile: dict) -> dict:
     lo, hi = prof["ops_per_channel"]
     actors = [A.ChannelActor(n, pr.randint(lo, hi)) for n in dict.fromkeys(setup.chan_names)]
     late = A.LateActor(pr, setup, prof, ctx.sut.device)
+    if profile.get("late_dmm_p") and not mappable and pr.random() < profile["late_dmm_p"]:
+        # detuning maps configured after the first pulses (in a template: after
+        # the first use of a variable)
+        late.pending = [o for o in setup.queue if o["op"] == "config_detuning_map"] + late.pending
+        setup.queue = [o for o in setup.queue if o["op"] != "config_detuning_map"]
     il = stream(seed, prop, run, "interleave")
     prog: list = []
     while ctx.step_no < prof["max_steps"]:
@@ -756,7 +791,9 @@ def gen_history(rng: random.Random, world: dict, profile: dict) -> list:
         elif k == "abstract":
             hist.append({"op": "t_abstract"})
         elif k == "sibling":
-            hist.append({"op": "t_sibling", "kind": G.pick(rng, ["switch_register", "switch_device"]), "i": rng.randrange(na), "m": rng.randrange(nm)})
+            hist.append({"op": "t_sibling", "kind": G.pick(rng, profile.get("sibling_kinds", ["switch_register", "switch_device"])), "i": rng.randrange(na), "m": rng.randrange(nm)})
+            if profile.get("sibling_label") and rng.random() < 0.5:
+                hist[-1]["rename"] = True
         elif k == "restart":
             hist.append({"op": "t_restart", "kind": G.pick(rng, ["abstract", "abstract", "legacy"])})
         elif k == "built_restart":
@@ -809,7 +846,12 @@ class TemplateRun:
         B, b_err = self._build(seq, vals, qubits)
         D, d_err = self.tw.direct(vals, qubits, self.mask)
         self.stats[f"{who}/{'raised' if b_err else 'ok'}/direct-{'raised' if d_err else 'ok'}"] += 1
-        if b_err and not d_err:
+        if label == "C18" and bool(b_err) != bool(d_err):
+            # a template has no timeline until it is built: which channel of the new
+            # device a channel is matched to (and hence whose limits apply at build
+            # time) is not decided by the statement; counted, not judged
+            self.stats[f"switched_template_build/{'refused' if b_err else 'accepted'}_unlike_direct"] += 1
+        elif b_err and not d_err:
             self.viol(f"{label}/build-refused", step, f"{who}({vals}) raised {b_err} but the same calls issued directly are all accepted")
         elif d_err and not b_err:
             self.viol(f"{label}/build-accepted-invalid", step, f"{who}({vals}) returned a sequence but issuing the same calls directly raises at {d_err}")
@@ -827,7 +869,13 @@ class TemplateRun:
             else:
                 self.stats["probe/earlier_builds_rechecked"] += len(getattr(self, "kept", []))
             self.kept = (getattr(self, "kept", []) + [(B, kb, vals)])[-2:]
-            if not keys_close(kb, kd):
+            if label == "C18":
+                # a switch may re-match a DMM to another DMM of the new device (other
+                # name and id): channels are compared in declaration order, as C18 does
+                same = switched_close(kb, kd)
+            else:
+                same = keys_close(kb, kd)
+            if not same:
                 self.viol(f"{label}/build-differs", step, f"{who}({vals}{', qubits=%s' % qubits if qubits else ''}) differs from direct construction: {key_diff(kb, kd)}")
             return kb
         return ("raised",)
@@ -917,6 +965,13 @@ class TemplateRun:
         elif k == "t_sibling":
             from pulser.register.mappable_reg import MappableRegister
 
+            if op["kind"] == "switch_device" and op.get("rename"):
+                # switch_device tries every assignment of device channels to declared
+                # channels (|device channels| ** |declared|): bounded, as a time limit
+                nd = len(T.device.channels) + len(T.device.dmm_channels)
+                if nd ** len(T.declared_channels) > 3000:
+                    self.stats["sibling_skipped/too_many_channel_assignments"] += 1
+                    op = dict(op, rename=False)
             with warnings.catch_warnings():
                 warnings.simplefilter("ignore")
                 try:
@@ -924,13 +979,15 @@ class TemplateRun:
                         newreg = MappableRegister(self.tw.layout, *self.world["register"]["ids"]) if self.tw.mappable else W.build_register(self.world["register"])
                         S = T.switch_register(newreg)
                     else:
-                        S = T.switch_device(W.build_device(self.world["device"]), strict=True)
+                        S = T.switch_device(W.build_device(dict(self.world["device"], name="Twin") if op.get("rename") and self.world["device"]["kind"] != "builtin" else self.world["device"]), strict=True)
                 except Exception as e:  # noqa: BLE001
                     self.stats[f"sibling_refused/{type(e).__name__}"] += 1
                     S = None
             if S is not None:
-                self.compare_build(i, S, self._vals(op["i"]), self._qubits(op["m"]), "C08", who="sibling-build")
+                label = self.profile.get("sibling_label", "C08") if op["kind"] == "switch_device" else "C08"
+                self.compare_build(i, S, self._vals(op["i"]), self._qubits(op["m"]), label, who="sibling-build")
                 self.stats["probe/sibling_build"] += 1
+                self.stats[f"probe/sibling_build_{op['kind']}"] += 1
             self.check_template_unchanged(i, "a sibling's build")
         elif k == "t_restart":
             self.restart(i, op)
